@@ -384,7 +384,10 @@ func genAll() error {
 	if err := genC15(); err != nil {
 		return err
 	}
-	return genC03()
+	if err := genC03(); err != nil {
+		return err
+	}
+	return genC04()
 }
 
 // genFor regenerates the L2 harness sources a property needs from /repo's
